@@ -108,6 +108,23 @@ Can(x, i, j, used) ==
        \/ /\ i <= Len(x.rows)
           /\ \E k \in OffWire(x) \ used : FreeRow(x, x.rows[i], k) /\ Can(x, i + 1, j, used \cup {k})
 
+RECURSIVE CanOffLogged(_, _, _, _)
+\* Diagnosis only (the verdict is Can's): like Can, but a row may also be attributed to an exchange made while
+\* implicit logging was switched off.  When this explains the rows and Can does not, what is wrong with the run
+\* is that exchanges were recorded while implicit logging was off (B3) -- however many of them.
+CanOffLogged(x, i, j, used) ==
+  IF j > Len(x.exch)
+  THEN \/ i > Len(x.rows)
+       \/ /\ i <= Len(x.rows)
+          /\ \E k \in OffWire(x) \ used : FreeRow(x, x.rows[i], k) /\ CanOffLogged(x, i + 1, j, used \cup {k})
+  ELSE LET e == x.exch[j] IN
+       \/ (e.nw = 0 \/ ~MustLog(x, e)) /\ CanOffLogged(x, i, j + 1, used)
+       \/ /\ e.nw > 0 /\ i <= Len(x.rows)
+          /\ RowClause(x.rows[i], e) = "ok"
+          /\ CanOffLogged(x, i + 1, j + 1, used)
+       \/ /\ i <= Len(x.rows)
+          /\ \E k \in OffWire(x) \ used : FreeRow(x, x.rows[i], k) /\ CanOffLogged(x, i + 1, j, used \cup {k})
+
 Missing(x, j) == IF x.aborted THEN <<"B4", "completed-exchange-missing-after-abort", j>>
                  ELSE <<"B1", "exchange-without-row", j>>
 
@@ -131,6 +148,8 @@ Diag(x, i, j, used) ==
   ELSE IF free # {} /\ Can(x, i + 1, j, used \cup {kf}) THEN Diag(x, i + 1, j, used \cup {kf})
   ELSE IF e.impl = "off" THEN
          IF has /\ r.okDecode /\ r.req = e.req /\ Can(x, i + 1, j + 1, used)
+         THEN <<"B3", "recorded-while-implicit-off", j>>
+         ELSE IF has /\ RowClause(r, e) = "ok" /\ CanOffLogged(x, i + 1, j + 1, used)
          THEN <<"B3", "recorded-while-implicit-off", j>>
          ELSE Diag(x, i, j + 1, used)
   ELSE IF ~has THEN (IF MustLog(x, e) THEN Missing(x, j) ELSE Diag(x, i, j + 1, used))
